@@ -117,8 +117,13 @@ def shapes():
 
     @shape("type-named-View")
     def _(rnd):
-        n = rnd.choice(["View", "Writer", "Generic", "Make", "Storage", "Stream", "Arg", "String", "Maybe", "Emboss", "Std"])
+        n = rnd.choice(["View", "Writer", "Generic", "Make", "Stream", "Arg", "String", "Maybe", "Emboss", "Std", "OtherStorage", "Arg0", "Args", "T"+"ype"])
         return _struct(n, ["0 [+1]  UInt  a"]) + _struct("User", ["0 [+1]  %s  inner" % n])
+
+    @shape("type-named-Storage")
+    def _(rnd):
+        # `Storage` is the template parameter of every generated view class
+        return _struct("Storage", ["0 [+1]  UInt  a"]) + _struct("User", ["0 [+1]  Storage  inner"])
 
     @shape("nested-type-same-as-outer")
     def _(rnd):
